@@ -36,7 +36,7 @@ TNext == /\ i <= N
          /\ LET r  == Log[i]
                 ks == Judge(r.p, r.out, r.short) \cup (IF r.same THEN {} ELSE {"input-overwritten"})
             IN /\ bad' = bad \cup {[idx |-> i, key |-> k] : k \in ks}
-               /\ fc' = [fc EXCEPT ![Feature(r.p)] = @ + 1]
+               /\ fc' = IF Has(r, "self") THEN fc ELSE [fc EXCEPT ![Feature(r.p)] = @ + 1]   \* self-test pairs are not inputs
 TSpec == TInit /\ [][TNext]_<<i, bad, fc>>
 
 Report == i <= N \/ PrintT(ToJson([n |-> N, bad |-> bad, feat |-> fc]))
